@@ -2,5 +2,7 @@ SPECIFICATION GenSpec
 CONSTANTS
   Pinned = FALSE
 INVARIANT GenOK
+INVARIANT GenTypeOK
+INVARIANT GenWalkAgrees
 INVARIANT Emit
 CHECK_DEADLOCK FALSE
